@@ -54,7 +54,10 @@ def session_tree(rng: random.Random, nnodes: int, nops: int, closed: bool = True
             dst = rng.choice(tree)
             typ = rng.choice([0, 1, 5, 64, 65, 70, 127, 127, 100, 190, 192, 200])
             n = rng.choice([0, 1, 5, 24, 24, 25, 48, 49, 100, 144])
-            ops.append(f"{src} write {addr_of(dst)} {typ} {rbytes(rng, n)} 56")
+            if rng.random() < 0.15:
+                ops.append(f"{src} dflt write {addr_of(dst)} {typ} {rbytes(rng, n)}")
+            else:
+                ops.append(f"{src} write {addr_of(dst)} {typ} {rbytes(rng, n)} 56")
         elif x < 0.72:
             ops.append(f"{rng.choice(names)} update")
         elif x < 0.77:
@@ -62,7 +65,10 @@ def session_tree(rng: random.Random, nnodes: int, nops: int, closed: bool = True
         elif x < 0.9:
             ops.append(f"{rng.choice(names)} read")
         elif x < 0.95:
-            ops.append(f"{rng.choice(names)} multicast {rbytes(rng, rng.choice([0, 3, 24, 30]))} {rng.randint(0, 127)} {rng.choice(['N', 0, 1, 2, 3, 4])}")
+            if rng.random() < 0.2:
+                ops.append(f"{rng.choice(names)} dflt multicast {rbytes(rng, rng.choice([0, 3, 24, 30]))} {rng.randint(0, 127)}")
+            else:
+                ops.append(f"{rng.choice(names)} multicast {rbytes(rng, rng.choice([0, 3, 24, 30]))} {rng.randint(0, 127)} {rng.choice(['N', 0, 1, 2, 3, 4])}")
         else:
             ops.append("env faults " + ("".join(rng.choice("DDDDLA") for _ in range(rng.randint(1, 12)))))
     return f"net {len(tree)} {1 if closed else 0} " + " ; ".join(ops)
@@ -90,8 +96,11 @@ def session_mesh(rng: random.Random, njoin: int, nops: int):
             ops.append(f"{n} send {rng.choice(ids + [0])} {rng.choice([1, 70, 127])} {rbytes(rng, rng.choice([0, 4, 30]))}")
         elif x < 0.7:
             ops.append(f"{n} release")
-        elif x < 0.75:
+        elif x < 0.73:
             ops.append(f"{n} check_connection {rng.randint(1, 3)} {rng.choice('TF')}")
+        elif x < 0.75:
+            ops.append(rng.choice([f"{n} dflt check_connection", f"{n} dflt lookup_node_id", f"{n} dflt lookup_address",
+                                   "m dflt release_address", "m dflt lookup_node_id"]))
         elif x < 0.85:
             ops.append(f"m update")
         elif x < 0.9:
